@@ -114,6 +114,26 @@ def do_task(task):
     raise ValueError(kind)
 
 
+def _stable(x, depth=0):
+    """order-insensitive, address-free rendering of a table"""
+    import re as _re
+    if depth > 6:
+        return '...'
+    if isinstance(x, dict):
+        return ('dict', tuple(sorted((_stable(k, depth + 1), _stable(v, depth + 1)) for k, v in x.items())))
+    if isinstance(x, (set, frozenset)):
+        return ('set', tuple(sorted(_stable(k, depth + 1) for k in x)))
+    if isinstance(x, (list, tuple)):
+        return (type(x).__name__, tuple(_stable(k, depth + 1) for k in x))
+    if isinstance(x, _re.Pattern):
+        return ('re', x.pattern, x.flags)
+    if isinstance(x, (str, bytes, int, float, bool, type(None))):
+        return repr(x)
+    if isinstance(x, type):
+        return 'class:' + x.__name__
+    return 'obj:' + type(x).__name__
+
+
 def fingerprint():
     out = {}
     for path, g in sorted(pgrammar._loaded_grammars.items()):
@@ -126,6 +146,17 @@ def fingerprint():
         out['grammar:' + str(path).split('/')[-1]] = hash((tuple(sorted(d)), tuple(sorted(pg.reserved_syntax_strings)), pg.start_nonterminal,
                                                               tuple(sorted(k for k in vars(g) if not k.startswith('__')))))
     out['token_collections'] = tuple(sorted(ptok._token_collection_cache))
+    # the CONTENTS of every memoised token collection (an alias of one of these sets / dicts may be mutated in place)
+    for key, tc in sorted(ptok._token_collection_cache.items()):
+        out['token_collection:%s' % (key,)] = _stable(tuple(tc))
+    # every module-level container of every parso module (tables, registries, caches other than the parser cache)
+    for mname in sorted(n for n in sys.modules if n == 'parso' or n.startswith('parso.')):
+        mod = sys.modules[mname]
+        for name, val in sorted(vars(mod).items()):
+            if name.startswith('__') or name in ('parser_cache', '_loaded_grammars', '_token_collection_cache'):
+                continue
+            if isinstance(val, (list, dict, set, frozenset, tuple)):
+                out['global:%s.%s' % (mname, name)] = _stable(val)
     from parso.python.errors import ErrorFinder
     from parso.python.pep8 import PEP8Normalizer
     from parso.normalizer import Normalizer
@@ -187,6 +218,15 @@ def run(ctx, b, drv):
         r = gens.rng(ctx.seed, 'schedules', i)
         n = r.randint(2, 8)
         tasks = gen_tasks(r, n)
+        # pristine reference: memo tables emptied, then filled by first use only (load the grammars and token collections the tasks will
+        # need, without parsing anything) - whatever the tasks do afterwards must leave exactly this state
+        pgrammar._loaded_grammars.clear()
+        ptok._token_collection_cache.clear()
+        for vv in sorted(set(t[1] for t in tasks)):
+            if any(t[1] == vv and t[0] != 'tokenize' for t in tasks):
+                parso.load_grammar(version=vv)
+            ptok._get_token_collection(parse_version_string(vv))
+        fp_ref = fingerprint()
         # sequential reference, in two different orders with empty memo tables
         pgrammar._loaded_grammars.clear()
         ptok._token_collection_cache.clear()
@@ -197,6 +237,10 @@ def run(ctx, b, drv):
             except Exception as e:
                 exp.append(('exc', preds.crash_sig(e)))
         fp0 = fingerprint()
+        if fp0 != fp_ref:
+            diff = sorted(k for k in set(fp0) | set(fp_ref) if fp0.get(k) != fp_ref.get(k))
+            ctx.violation('C18:shared-state-changed-by-calls', dict(kind='schedule', tasks=[list(t) for t in tasks], changed=diff[:10],
+                                                                    note='state after the tasks differs from the state after first-use memoisation alone'))
         pgrammar._loaded_grammars.clear()
         ptok._token_collection_cache.clear()
         order = list(range(n))
